@@ -1179,6 +1179,7 @@ var sessionPkgs = map[string]bool{"device": true, "asa": true, "ios": true, "cis
 	"httpdevice": true, "console": true, "doapprove": true, "status": true, "errlog": true, "drc": true, "codefiles": true, "program": true}
 
 func checkC09(p *Prog, r *Report) {
+	ruleSharedErrorInGoroutines(p, r, "R09.12")
 	ruleRegexpConsts(p, r, "R-RX", "C09", 1)
 	m, err := p.model()
 	if err != nil {
